@@ -273,6 +273,10 @@ def integration_obligations(tier):
     for ob in profiles.p_resource_rules(thorough, timeout=900 if thorough else 150):
         ob = dict(ob, harness="sim_rules", engine="zsym")
         obs.append(ob)
+    # the resource rules read the current skills: the run follows a complete run of the same objects with other skill maps
+    ed = [dict(ob, engine="zsym") for ob in profiles.p_resource_rules(thorough, timeout=900 if thorough else 150)
+          if "wprule=0" in ob["name"] and ("wrule=0/frule=0" in ob["name"] or "wrule=2/frule=2" in ob["name"] or thorough)]
+    obs += profiles.with_history(ed, "edited-model", 1)
     # every task rule must also be accepted on a run that is continued from a saved file (FIFO reads the restored state logs)
     for rule in range(9):
         spec = {"tasks": [{"w": "$w%d" % i} for i in range(3)], "edges": [], "teams": [{"targets": [0, 1, 2], "workers": [{"skills": {"0": 1, "1": 1, "2": 1}}]}],
